@@ -1523,3 +1523,7 @@ def run(ctx, shard):
         run_repo_tests(ctx, numqi, torch)
     elif name == 'history':
         run_history(ctx, numqi, torch)
+
+
+# thorough tier: every random shard is run this many times with independent random streams (see vmon/runner.py get_shards)
+THOROUGH_REPEAT = 8
